@@ -223,7 +223,10 @@ def writeRegular (lim : Limits) (s : VS) (k v : Bytes) : Except Reason VS :=
     else if decVal v ≥ lim.usizeBound then .error .duplicateCl
     else match setContentLength s.body (decVal v) with
       | none => .error .clTeConflict
-      | some b => .ok { s with body := b, fields := s.fields ++ [.hdr k v] }
+      | some b =>
+        -- an equal duplicate is not written a second time (`already_declared`)
+        if s.body == .length (decVal v) then .ok s
+        else .ok { s with body := b, fields := s.fields ++ [.hdr k v] }
   else .ok { s with fields := s.fields ++ [.hdr k v] }
 
 /-- one cookie-pair of the `cookie` branch: `(key, value)` split on the first `=` -/
@@ -262,7 +265,7 @@ def perHeader (lim : Limits) (s : VS) (k v : Bytes) : Except Reason VS :=
     if v != sHttp && v != sHttps then .error .invalidScheme
     else (storePseudo s.scheme s.regular v).map fun x => { s with scheme := some x }
   else if eqNoCase k sPath then
-    if v.contains 35 then .error .invalidPath
+    if v.contains 35 || v.contains 32 then .error .invalidPath
     else (storePseudo s.path s.regular v).map fun x => { s with path := some x }
   else if eqNoCase k sAuthority then
     (storePseudo s.authority s.regular v).map fun x => { s with authority := some x }
